@@ -6,6 +6,7 @@ CONSTANTS
   Links <- MCLinks
   LinkPeer <- MCLinkPeer
   LinkAddr <- MCLinkAddr
+  LinkLimited <- MCLinkLimited
   ASNOf <- MCASNOf
   DenyReserve <- MCDenyReserve
   DenyConnect <- MCDenyConnect
@@ -24,6 +25,7 @@ CONSTANTS
   Faults = {"open"}
   Features = {"time", "updown"}
   Static = {}
+  Off = {}
 INIT Init
 NEXT Next
 VIEW View
